@@ -206,6 +206,11 @@ GOALS = {
                          [{"a": "Reload", "t": "g1"}, {"a": "Get", "s": "s1", "t": "g1", "what": "desc sub", "since": 0, "before": 0, "limit": 0, "chan": False},
                           {"a": "SetDesc", "s": "s2", "t": "g1", "auth": ["J", "R"], "public": "x", "chan": False},
                           {"a": "DelTopic", "s": "s2", "t": "g1", "hard": True, "chan": False}]),
+    "pending_transfer_unloaded": ('st.topics["g1"].exists /\\ st.subs["g1"]["u2"].st = "live" /\\ st.topics["g1"].owner = "u1" '
+                                  '/\\ "O" \\in M(st.subs["g1"]["u2"].given) /\\ "O" \\notin M(st.subs["g1"]["u2"].want) /\\ ~st.cache["g1"].loaded',
+                                  [{"a": "DelTopic", "s": "s2", "t": "g1", "hard": True, "chan": False},
+                                   {"a": "Sub", "s": "s1", "t": "g1", "mode": ["-"], "chan": False, "bg": False},
+                                   {"a": "Get", "s": "s1", "t": "g1", "what": "desc sub", "since": 0, "before": 0, "limit": 0, "chan": False}]),
     "banned_and_unsubscribed": ('st.topics["g1"].exists /\\ st.subs["g1"]["u2"].st = "del" /\\ "J" \\notin M(st.subs["g1"]["u2"].given)',
                                 [{"a": "Sub", "s": "s2", "t": "g1", "mode": ["-"], "chan": False, "bg": False},
                                  {"a": "Pub", "s": "s2", "t": "g1", "c": "c1", "noecho": False, "chan": False}]),
@@ -243,7 +248,9 @@ GOALS = {
 P2P_GOALS = {
     "p2p_one_side_unsubscribed_live": ('st.topics["p12"].exists /\\ st.subs["p12"]["u1"].st = "del" /\\ st.subs["p12"]["u2"].st = "live" /\\ st.cache["p12"].loaded '
                                        '/\\ st.cache["p12"].att # <<>> /\\ st.topics["p12"].seq > 0',
-                                       [{"a": "Pub", "s": "s1", "t": "p12", "c": "c1", "noecho": False, "chan": False},
+                                       [{"a": "SetOther", "s": "s2", "t": "p12", "u": "u3", "mode": ["J", "R", "W"], "chan": False},
+                                        {"a": "SetOther", "s": "s2", "t": "p12", "u": "u3", "mode": ["-"], "chan": False},
+                                        {"a": "Pub", "s": "s1", "t": "p12", "c": "c1", "noecho": False, "chan": False},
                                         {"a": "Note", "s": "s1", "t": "p12", "what": "recv", "seq": 1, "chan": False},
                                         {"a": "Pub", "s": "s2", "t": "p12", "c": "c2", "noecho": False, "chan": False},
                                         {"a": "Sub", "s": "s1", "t": "p12", "mode": ["-"], "chan": False, "bg": False},
@@ -254,6 +261,13 @@ P2P_GOALS = {
                                             {"a": "Pub", "s": "s1", "t": "p12", "c": "c1", "noecho": False, "chan": False},
                                             {"a": "Sub", "s": "s2", "t": "p12", "mode": ["-"], "chan": False, "bg": False},
                                             {"a": "Pub", "s": "s2", "t": "p12", "c": "c2", "noecho": False, "chan": False}]),
+    "p2p_member_detached": ('st.topics["p12"].exists /\\ st.subs["p12"]["u1"].st = "live" /\\ st.subs["p12"]["u2"].st = "live" '
+                            '/\\ "p12" \\notin M(st.sess["s1"].subs) /\\ st.cache["p12"].loaded',
+                            [{"a": "SetSelf", "s": "s1", "t": "p12", "mode": ["J", "R", "W", "P"], "chan": False},
+                             {"a": "SetSelf", "s": "s1", "t": "p12", "mode": ["J", "R"], "chan": False},
+                             {"a": "Unload", "t": "p12"},
+                             {"a": "SetSelf", "s": "s1", "t": "p12", "mode": ["J", "R", "W"], "chan": False},
+                             {"a": "Sub", "s": "s1", "t": "p12", "mode": ["-"], "chan": False, "bg": False}]),
     "p2p_both_attached_with_history": ('st.topics["p12"].exists /\\ st.topics["p12"].seq > 1 /\\ Len(st.cache["p12"].att) >= 2',
                                        [{"a": "Reload", "t": "p12"},
                                         {"a": "Pub", "s": "s1", "t": "p12", "c": "c1", "noecho": True, "chan": False},
@@ -275,9 +289,23 @@ MARK_GOALS = {
                             {"a": "Note", "s": "s2", "t": "g1", "what": "read", "seq": 3, "chan": False},
                             {"a": "Note", "s": "s2", "t": "g1", "what": "read", "seq": 4, "chan": False}]),
 }
+# goals on unusual writer permissions (used by the properties whose request kinds include publishes)
+PERM_GOALS = {
+    "writer_without_read": ('st.topics["g1"].exists /\\ st.cache["g1"].loaded /\\ "g1" \\in M(st.sess["s2"].subs) /\\ "g1" \\in M(st.sess["s1"].subs) '
+                            '/\\ st.subs["g1"]["u2"].st = "live" /\\ {"J", "W", "P"} \\subseteq Eff(st.subs["g1"]["u2"]) /\\ "R" \\notin Eff(st.subs["g1"]["u2"])',
+                            [{"a": "Pub", "s": "s2", "t": "g1", "c": "c1", "noecho": False, "chan": False},
+                             {"a": "Pub", "s": "s1", "t": "g1", "c": "c2", "noecho": False, "chan": False},
+                             {"a": "Pub", "s": "s2", "t": "g1", "c": "c1", "noecho": True, "chan": False}]),
+    "writer_without_presence": ('st.topics["g1"].exists /\\ st.cache["g1"].loaded /\\ "g1" \\in M(st.sess["s2"].subs) /\\ "g1" \\in M(st.sess["s1"].subs) '
+                                '/\\ st.subs["g1"]["u2"].st = "live" /\\ {"J", "R", "W"} \\subseteq Eff(st.subs["g1"]["u2"]) /\\ "P" \\notin Eff(st.subs["g1"]["u2"])',
+                                [{"a": "Pub", "s": "s2", "t": "g1", "c": "c1", "noecho": False, "chan": False},
+                                 {"a": "Pub", "s": "s1", "t": "g1", "c": "c2", "noecho": False, "chan": False},
+                                 {"a": "Leave", "s": "s2", "t": "g1", "unsub": False, "chan": False},
+                                 {"a": "Pub", "s": "s1", "t": "g1", "c": "c1", "noecho": False, "chan": False}]),
+}
 
 
-def goal_behaviours(ctx, users, sess, topics, names=None, maxsubs=3, marks=False):
+def goal_behaviours(ctx, users, sess, topics, names=None, maxsubs=3, marks=False, perms=False):
     import concurrent.futures
     goals = dict(GOALS)
     p2p = "p12" in topics
@@ -285,6 +313,8 @@ def goal_behaviours(ctx, users, sess, topics, names=None, maxsubs=3, marks=False
         goals.update(P2P_GOALS)
     if marks:
         goals.update(MARK_GOALS)
+    if perms:
+        goals.update(PERM_GOALS)
     names = names or list(goals)
     # a goal that speaks of users or sessions outside this population does not apply to it
     import re as _re
@@ -295,12 +325,13 @@ def goal_behaviours(ctx, users, sess, topics, names=None, maxsubs=3, marks=False
     consts = mc_consts(users, sess, topics, DEV_BUILT, ["-", "N", "JR", "JRS", "JRA", "JRASO"], ["-", "N", "JR", "JRS", "JRAS", "JRASO"],
                        ["NewGrp", "Sub", "Leave", "SetSelf", "SetOther", "DelSub", "DelTopic", "Unload"], [], maxsubs=maxsubs)
     consts_p2p = mc_consts(users, sess, topics, DEV_BUILT, ["-"], ["-"], ["P2P"], [], maxseq=3, maxsubs=maxsubs)
+    consts_perms = mc_consts(users, sess, topics, DEV_BUILT, ["-", "JWP", "JRW"], ["-", "JRWP"], ["NewGrp", "Sub", "SetSelf"], [], maxsubs=maxsubs)
     consts_marks = mc_consts(users, sess, topics, DEV_BUILT, ["-", "JRW"], ["-", "JRW"], ["NewGrp", "Sub", "Pub", "Note"], [], maxseq=3, maxsubs=maxsubs)
 
     def one(name):
         expr, tail = goals[name]
         mod = "Goal_" + name
-        cs = consts_p2p if name in P2P_GOALS else consts_marks if name in MARK_GOALS else consts
+        cs = consts_p2p if name in P2P_GOALS else consts_marks if name in MARK_GOALS else consts_perms if name in PERM_GOALS else consts
         defs = "\n".join("c_%s == %s" % (k, v) for k, v in cs.items())
         with open(os.path.join(ctx.specdir, mod + ".tla"), "w") as fh:
             fh.write("---- MODULE %s ----\nEXTENDS TopicCore_MC\n%s\nNotGoal == ~(%s)\n====\n" % (mod, defs, expr))
